@@ -23,7 +23,15 @@ RR = r"<Iter<'a;T> as Iterator>::next\(\^arg2\)@Some\.0"
 ZCLASS = rf'eq:DNSClass\({RR}\.dns_class,InMemoryZoneHandler::class\(\^arg1\.in_memory\)\)'
 INZONE = rf'^LowerName::zone_of\(<SqliteZoneHandler<P> as ZoneHandler>::origin\(\^arg1\),into<LowerName>\({RR}\.name\)\)$'
 TTL0 = rf'^eq\(0,{RR}\.ttl\)$'
-EMPTY = rf'^is\({RR}\.data,(Update0|NULL)\)$'
+
+
+def within(term_rx, names):
+    """the term is one of the named variants: is(T,X) with X in names, or in(T,X|Y..) with every listed variant in names"""
+    alt = '(?:' + '|'.join(names) + ')'
+    return rf'^(?:is\({term_rx},{alt}\)|in\({term_rx},{alt}(?:\|{alt})*\))$'
+
+
+EMPTY = within(RR + r'\.data', ['Update0', 'NULL'])
 NONEMPTY = rf'^in\({RR}\.data,(?!.*\bNULL\b)(?!.*\bUpdate0\b).*\)$'
 
 
@@ -76,8 +84,8 @@ def run(cx):
         table(cx, 'C12.T1', v, rows, 11)
     p = cx.fn('C12.T1', S + 'pre_scan::{closure#0}')
     if p:
-        META = rf'^is\(Record::record_type\({RR}\),(ANY|AXFR|IXFR)\)$'
-        XFR = rf'^is\(Record::record_type\({RR}\),(AXFR|IXFR)\)$'
+        META = within(rf'Record::record_type\({RR}\)', ['ANY', 'AXFR', 'IXFR'])
+        XFR = within(rf'Record::record_type\({RR}\)', ['AXFR', 'IXFR'])
         rows = [
             ('done', r'^Result::Ok\(\(\)\)$', {'all-seen': r"^!ok\(<Iter<'a;T> as Iterator>::next\(\^arg2\)\)$"}),
             ('outside zone NOTZONE', r'NotZone', {'zone': '^!' + INZONE[1:]}),
